@@ -150,16 +150,19 @@ def run_case(case, emit=None):
 # The property forbids unbounded recursion.  Without the lock table the propagation does not loop
 # forever (RecursionError is swallowed by the handlers' bare `except: pass`) but takes time exponential
 # in the recursion limit, so the histories run in a worker process that reports every finished
-# operation; when one operation takes longer than OP_BUDGET seconds the worker is killed, the operation
+# operation; when one operation takes longer than OP_BUDGET seconds (after the worker reported ready) the worker is killed, the operation
 # is recorded as RecursionError (the history is cut there) and a new worker continues with the next
 # history.  After MAX_TIMEOUTS such events the remaining histories are returned empty (not run).
-OP_BUDGET = 8.0
+OP_BUDGET = 20.0
+STARTUP_BUDGET = 600.0
 MAX_TIMEOUTS = 3
 
 
 def worker():
     cases = dlib.load()
     w = sys.stdout
+    w.write(json.dumps([-1, None]) + "\n")     # ready: start-up (imports, parsing) is not an operation
+    w.flush()
     for k, c in enumerate(cases):
         def emit(ob, k=k):
             w.write(json.dumps([k, ob]) + "\n")
@@ -181,9 +184,9 @@ def supervise(cases):
         proc.stdin.close()
         sel = selectors.DefaultSelector()
         sel.register(proc.stdout, selectors.EVENT_READ)
-        buf, cur, cur_k, done, hung = b"", [], 0, False, False
+        buf, cur, cur_k, done, hung, ready = b"", [], 0, False, False, False
         while not done:
-            if not sel.select(timeout=OP_BUDGET):
+            if not sel.select(timeout=OP_BUDGET if ready else STARTUP_BUDGET):
                 hung = True
                 break
             chunk = os.read(proc.stdout.fileno(), 1 << 16)
@@ -194,7 +197,9 @@ def supervise(cases):
             while b"\n" in buf:
                 line, buf = buf.split(b"\n", 1)
                 k, ob = json.loads(line)
-                if ob is None:
+                if k == -1:
+                    ready = True
+                elif ob is None:
                     results[start + k] = cur
                     cur, cur_k = [], k + 1
                 else:
